@@ -237,7 +237,8 @@ def plan(tier):
         for lo, hi in ((0, 6), (7, 12)):
             sh.append({'trig': 'boot', 'gw': 0.3, 'dmin': lo, 'dmax': hi})
             sh.append({'trig': 'boot', 'gw': 0, 'dmin': lo, 'dmax': hi, 'victim': 'newest'})
-        sh.append({'trig': 'start_all', 'gw': 0, 'dmax': 12})
+        sh.append({'trig': 'start_all', 'gw': 0, 'dmin': 0, 'dmax': 6})
+        sh.append({'trig': 'start_all', 'gw': 0, 'dmin': 7, 'dmax': 12})
     return [
         Cond('c19_order', shards=sh, budget=300 if q else 2400, twins=2,
              bounds={'p1,p2,p3': 'R: all integers (ties included)', 'w1,w2': 'S: warm-up %r' % (WARM,), 'n1': 'S[1,3]', 'n2': 'S[1,2]',
